@@ -60,8 +60,8 @@ def jobs(tier):
     js.append(row_job(1, 1, 96, 11, 300))
     js.append(row_job(4, 0, 8, 11, 600))
     js.append(row_job(4, 1, 8, 11, 600))
-    js.append(row_job(8, 0, 8, 11, 3000))
     if th:
+        js.append(row_job(8, 0, 8, 11, 3000))      # 165 CPU-s: thorough tier
         js.append(row_job(8, 1, 8, 11, 3000))
         js.append(row_job(4, 0, 24, 25, 3600))
     js.append(row_job(1, 0, 96, 11, 300, case=1, name="finding.row.a1.far_right"))
@@ -69,7 +69,6 @@ def jobs(tier):
     js.append(row_job(1, 0, 96, 11, 300, case=2, name="tile.a1.w96"))
     if th:
         js.append(row_job(4, 0, 8, 11, 2400, case=2, name="tile.a4.w8"))
-    else:
         js.append(row_job(4, 0, 8, 11, 1200, case=2, name="tile.a4.w4", extra={"VC_WLIM": 4}))
     # ---- (5) edges
     for c, nm in ((0, "small"), (1, "big")):
@@ -99,7 +98,8 @@ def jobs(tier):
                   functions=["pixman_rasterize_trapezoid", "pixman_line_fixed_edge_init"],
                   domain="any trapezoid with vertical edges, all top/bottom/x/offsets/height<=32767 (rows t..b, validity, walker x)",
                   timeout=2400, min_props=8, assumptions=[A_SHIFT, A_LOWB, A_BELOW]))
-    js.append(Job("finding.trap.edge_starts_below_top", "C12/trap.c", defines={"VC_CASE": 0, "VC_N": 4, "VC_GEOM": 0, "VC_BELOW": 1}, cbmc_flags=UB,
+    if th:
+      js.append(Job("finding.trap.edge_starts_below_top", "C12/trap.c", defines={"VC_CASE": 0, "VC_N": 4, "VC_GEOM": 0, "VC_BELOW": 1}, cbmc_flags=UB,
                   kind="proof", functions=["pixman_rasterize_trapezoid", "pixman_edge_init", "pixman_edge_step"],
                   domain="vertical edge line whose upper end point lies below the first covered row", timeout=2400, min_props=8,
                   assumptions=[A_SHIFT, A_LOWB]))
@@ -115,7 +115,8 @@ def jobs(tier):
         js.append(Job("trap.add_traps.walkers.n8", "C12/trap.c", defines={"VC_CASE": 1, "VC_N": 8, "VC_GEOM": 1, "VC_BITS": 4, "VC_SHIFT": 13}, cbmc_flags=UB,
                       kind="bounded", bound="coordinates = v*2^13 with |v| < 2^4 (+-2 pixels, 1/8 pixel resolution), x_off in {0,1,-3}, y_off in -1..1", functions=["pixman_add_traps"],
                       domain="slanted edges", timeout=3600, min_props=8, assumptions=[A_SHIFT, A_LOWB]))
-    js.append(Job("finding.trap.bottom_at_range_min", "C12/trap.c", defines={"VC_CASE": 0, "VC_N": 8, "VC_GEOM": 0, "VC_LOWB": 1}, cbmc_flags=UB,
+    if th:
+      js.append(Job("finding.trap.bottom_at_range_min", "C12/trap.c", defines={"VC_CASE": 0, "VC_N": 8, "VC_GEOM": 0, "VC_LOWB": 1}, cbmc_flags=UB,
                   kind="proof", functions=["pixman_rasterize_trapezoid", "pixman_sample_floor_y"],
                   domain="valid trapezoid whose shifted bottom is <= INT32_MIN + Y_FRAC_FIRST", timeout=2400, min_props=8, assumptions=[A_SHIFT]))
     return js
